@@ -73,6 +73,28 @@ pub enum Git {
     Status,
 }
 
+// several flattened child enums in one subcommand enum, used as an optional subcommand field and flattened once more
+#[derive(Subcommand, Clone, Debug, PartialEq)]
+pub enum FlA { Alpha { #[arg(long)] x: Option<String> }, Aleph }
+#[derive(Subcommand, Clone, Debug, PartialEq)]
+pub enum FlB { Beta { #[arg(long)] y: Option<String> }, Beth }
+#[derive(Subcommand, Clone, Debug, PartialEq)]
+pub enum FlC { Gamma }
+#[derive(Subcommand, Clone, Debug, PartialEq)]
+pub enum Both { #[command(flatten)] A(FlA), #[command(flatten)] B(FlB), #[command(flatten)] C(FlC), Own }
+#[derive(Parser, Clone, Debug, PartialEq)]
+#[command(name = "fl")]
+pub struct Fl { #[arg(long)] v: bool, #[command(subcommand)] cmd: Option<Both> }
+#[derive(Parser, Clone, Debug, PartialEq)]
+#[command(name = "fo")]
+pub enum Outer { #[command(flatten)] In(Both), Top }
+// a struct-like variant with required fields: an update names the variant and only some of its fields
+#[derive(Parser, Clone, Debug, PartialEq)]
+#[command(name = "upd")]
+pub enum Upd { Fetch { #[arg(long)] depth: u32, #[arg(long)] remote: String, #[arg(long)] tag: Option<String> }, Push(PushArgs), Other }
+#[derive(Args, Clone, Debug, PartialEq)]
+pub struct PushArgs { #[arg(long)] to: String, #[arg(long)] force: bool }
+
 // ---------------------------------------------------------------- canonical field values
 fn h(s: &str) -> String { if s.is_empty() { "-".into() } else { hex(s.as_bytes()) } }
 fn c_one(v: &str) -> String { format!("one:{}", h(v)) }
@@ -348,6 +370,73 @@ pub fn run(o: &Opts) -> Report {
         for short in [vec!["paths".to_string(), "--list".into(), "a".into()], vec!["paths".to_string(), "x".into()]] {
             let s2 = short.clone();
             match std::panic::catch_unwind(move || Paths::try_parse_from(s2)) { Err(_) => rep.oracle_fail("derive-panics", &format!("Paths argv={short:?}"), "panicked"), Ok(Ok(p)) => rep.oracle_fail("missing-required-accepted", &format!("Paths argv={short:?}"), &format!("{p:?}")), Ok(Err(_)) => {} }
+        }
+        // several flattened children: every child's subcommands belong to the enum, wherever the enum is used
+        {
+            let w = word(&mut rng);
+            let both: Vec<(Both, Vec<String>)> = vec![
+                (Both::A(FlA::Alpha { x: Some(w.clone()) }), vec!["alpha".into(), "--x".into(), w.clone()]), (Both::A(FlA::Aleph), vec!["aleph".into()]),
+                (Both::B(FlB::Beta { y: Some(w.clone()) }), vec!["beta".into(), "--y".into(), w.clone()]), (Both::B(FlB::Beth), vec!["beth".into()]),
+                (Both::C(FlC::Gamma), vec!["gamma".into()]), (Both::Own, vec!["own".into()])];
+            let (bv_, tail) = both[k % both.len()].clone();
+            rep.count("flattened_children");
+            // as an optional subcommand field
+            let want = Fl { v: k % 2 == 0, cmd: Some(bv_.clone()) };
+            let mut a: Vec<String> = vec!["fl".into()]; if want.v { a.push("--v".into()); } a.extend(tail.clone());
+            let key = format!("Fl argv={a:?}"); rep.case(&key, true);
+            let a2 = a.clone();
+            match std::panic::catch_unwind(move || (Fl::try_parse_from(a2.clone()).map_err(|e| e.kind()), Fl::command().try_get_matches_from(a2).map(|m| m.subcommand_name().map(str::to_owned)).map_err(|e| e.kind()))) {
+                Err(_) => rep.oracle_fail("derive-panics", &key, "flattened children"),
+                Ok((Ok(p), Ok(sc))) => { if p != want { rep.oracle_fail(if p.cmd.is_none() && sc.is_some() { "field-differs-from-matches" } else { "round-trip-changes-value" }, &key, &format!("{want:?} vs {p:?}; the matches hold subcommand {sc:?}")); } }
+                Ok((p, m)) => rep.oracle_fail(if p.is_ok() != m.is_ok() { "parse-differs-from-command" } else { "canonical-argv-rejected" }, &key, &format!("parse={p:?} command={m:?}")),
+            }
+            // flattened once more into an outer enum
+            let wanto = Outer::In(bv_.clone());
+            let mut ao: Vec<String> = vec!["fo".into()]; ao.extend(tail.clone());
+            let keyo = format!("Outer argv={ao:?}"); rep.case(&keyo, true);
+            let ao2 = ao.clone();
+            match std::panic::catch_unwind(move || (Outer::try_parse_from(ao2.clone()).map_err(|e| e.kind()), Outer::command().try_get_matches_from(ao2).map(|_| ()).map_err(|e| e.kind()))) {
+                Err(_) => rep.oracle_fail("derive-panics", &keyo, "flattened children"),
+                Ok((Ok(p), Ok(()))) => { if p != wanto { rep.oracle_fail("round-trip-changes-value", &keyo, &format!("{wanto:?} vs {p:?}")); } }
+                Ok((p, m)) => rep.oracle_fail(if p.is_ok() != m.is_ok() { "parse-differs-from-command" } else { "canonical-argv-rejected" }, &keyo, &format!("parse={p:?} command={m:?}")),
+            }
+            // update: switching to a subcommand of a later child, and naming one without fields
+            let st = Fl { v: true, cmd: Some(Both::Own) };
+            let keyu = format!("Fl update start={st:?} argv={a:?}");
+            let st2 = st.clone(); let a3 = a.clone();
+            match std::panic::catch_unwind(move || { let mut c = st2; let r = c.try_update_from(a3).map_err(|e| e.kind()); (c, r) }) {
+                Err(_) => rep.oracle_fail("derive-panics", &keyu, "try_update_from panicked"),
+                Ok((_, Err(kind))) => rep.oracle_fail("update-rejected-by-a-requirement", &keyu, &format!("{kind:?}")),
+                Ok((after, Ok(()))) => { if after.cmd != Some(bv_.clone()) { rep.oracle_fail("update-ignores-named-subcommand", &keyu, &format!("{after:?}")); } }
+            }
+        }
+        // a struct-like variant with required fields: the update names the variant and a subset of its fields
+        {
+            let (d, r, t) = (1 + rng.below(9) as u32, word(&mut rng), word(&mut rng));
+            let start = Upd::Fetch { depth: d, remote: r.clone(), tag: None };
+            let cases: Vec<(Vec<String>, Upd)> = vec![
+                (vec!["upd".into(), "fetch".into(), "--tag".into(), t.clone()], Upd::Fetch { depth: d, remote: r.clone(), tag: Some(t.clone()) }),
+                (vec!["upd".into(), "fetch".into()], start.clone()),
+                (vec!["upd".into(), "fetch".into(), "--depth".into(), "77".into()], Upd::Fetch { depth: 77, remote: r.clone(), tag: None }),
+                (vec!["upd".into()], start.clone())];
+            let (argv, want) = cases[k % cases.len()].clone();
+            let keyu = format!("Upd update start={start:?} argv={argv:?}");
+            rep.count("updates_struct_variant_subset"); rep.case(&keyu, true);
+            let st = start.clone();
+            match std::panic::catch_unwind(move || { let mut c = st; let r = c.try_update_from(argv).map_err(|e| e.kind()); (c, r) }) {
+                Err(_) => rep.oracle_fail("derive-panics", &keyu, "try_update_from panicked"),
+                Ok((_, Err(kind))) => rep.oracle_fail("update-rejected-by-a-requirement", &keyu, &format!("{kind:?}")),
+                Ok((after, Ok(()))) => { if after != want { rep.oracle_fail("update-changes-unnamed-field", &keyu, &format!("{start:?} -> {after:?}, expected {want:?}")); } }
+            }
+            let startp = Upd::Push(PushArgs { to: r.clone(), force: false });
+            let argvp: Vec<String> = vec!["upd".into(), "push".into(), "--force".into()];
+            let keyp = format!("Upd update start={startp:?} argv={argvp:?}");
+            let stp = startp.clone();
+            match std::panic::catch_unwind(move || { let mut c = stp; let r = c.try_update_from(argvp).map_err(|e| e.kind()); (c, r) }) {
+                Err(_) => rep.oracle_fail("derive-panics", &keyp, "try_update_from panicked"),
+                Ok((_, Err(kind))) => rep.oracle_fail("update-rejected-by-a-requirement", &keyp, &format!("{kind:?}")),
+                Ok((after, Ok(()))) => { if after != Upd::Push(PushArgs { to: r.clone(), force: true }) { rep.oracle_fail("update-changes-unnamed-field", &keyp, &format!("{startp:?} -> {after:?}")); } }
+            }
         }
         // update that stops at the outer subcommand: a no-op, whatever requirement the variant or the nested enum declares
         let starts = [(Git::Remote(RemoteCmd::Show), "remote"), (Git::Remote(RemoteCmd::Add { name: word(&mut rng) }), "remote"), (Git::Stash(StashCmd::Pop), "stash"), (Git::Stash(StashCmd::Push { message: Some(word(&mut rng)) }), "stash")];
